@@ -664,11 +664,16 @@ def interleave_blocks(names):
 
 
 def region_groups(trees):
-    """an element name whose occurrences disagree on the block of repeats a child belongs to (the
-    position of the block among the blocks, or the child's companions in it)"""
+    """an element name whose occurrences disagree on the blocks of repeats: a child's block differs
+    (its position among the blocks, or its companions), or one block number names different blocks"""
     for q, els in occurrences(trees).items():
         seen = {}
         parts = [(e, interleave_blocks([c["q"] for c in e["c"]])) for e in els]
+        numbered = {}
+        for e, part in parts:
+            for num, members in set(part.values()):
+                if numbered.setdefault(num, members) != members:
+                    return f"children of {q}: block {num} is {sorted(numbered[num])} in one occurrence and {sorted(members)} in another"
         for e, part in parts:
             for n in {c["q"] for c in e["c"]}:
                 blk = part.get(n)
